@@ -126,6 +126,37 @@ def trunc : XReal → XReal
   | .fin q => .fin (truncQ q : Rat)
   | _ => .nan
 
+/-! IEEE-754 binary64 rounding of an exact rational (nearest, ties to even; normal range, no overflow / underflow
+    modelled).  Ported from `Model/Landmarks.lean` (C11), where its properties are proved. -/
+
+/-- `2^e` as a rational -/
+def pow2 (e : Int) : Rat :=
+  if 0 ≤ e then (((2 : Nat) ^ e.toNat : Nat) : Rat) else 1 / (((2 : Nat) ^ (-e).toNat : Nat) : Rat)
+
+/-- the exponent `e` of the 53-bit grid `2^e·ℤ` on which a positive `q` is rounded -/
+def rneExp (q : Rat) : Int :=
+  let e0 : Int := (Nat.log2 q.num.toNat : Int) - (Nat.log2 q.den : Int) - 52
+  let e1 : Int := if q / pow2 e0 < pow2 52 then e0 - 1 else e0
+  if pow2 53 ≤ q / pow2 e1 then e1 + 1 else e1
+
+/-- round `q` to the nearest point of the grid `2^e·ℤ`, ties to the even multiple -/
+def roundAt (e : Int) (q : Rat) : Rat :=
+  let t := q / pow2 e
+  let m : Int := t.floor
+  let frac := t - (m : Rat)
+  let half : Rat := 1 / 2
+  let m' : Int := if half < frac then m + 1 else if frac < half then m else if m % 2 = 0 then m else m + 1
+  (m' : Rat) * pow2 e
+
+/-- the `double` nearest to an exact rational -/
+def rne53 (q : Rat) : Rat :=
+  if q = 0 then 0 else if 0 < q then roundAt (rneExp q) q else - roundAt (rneExp (-q)) (-q)
+
+/-- the result of a `double` operation whose exact result is `x` -/
+def round : XReal → XReal
+  | .fin q => .fin (rne53 q)
+  | x => x
+
 def isFinite : XReal → Bool
   | .fin _ => true
   | _ => false
